@@ -542,4 +542,10 @@ def module_functions(module, cls_name=None):
                     out[m.name] = m
     for d in dup:
         out.pop(d, None)
+    # only small helpers are followed: the big dispatch functions (compile_ast, compile_col_expr ...) call themselves
+    # recursively and would be re-evaluated with all their forks at every call site
+    for k in list(out):
+        n_stmts = sum(1 for x in ast.walk(out[k]) if isinstance(x, ast.stmt))
+        if n_stmts > 40 or any(isinstance(c, ast.Call) and isinstance(c.func, ast.Name) and c.func.id == k for c in ast.walk(out[k])):
+            del out[k]
     return out
